@@ -679,3 +679,35 @@ func ssaCheckThenInsert(fn *ssa.Function) []checkThenInsertResult {
 	}
 	return out
 }
+
+// variadicElems returns the values packed into the implicit slice of a variadic call argument (append(s, x, y),
+// f(a, xs...) excluded): the builder allocates a [n]T array, stores each element and slices it.
+func variadicElems(arg ssa.Value) []ssa.Value {
+	sl, ok := arg.(*ssa.Slice)
+	if !ok {
+		return nil
+	}
+	al, ok := sl.X.(*ssa.Alloc)
+	if !ok {
+		return nil
+	}
+	var out []ssa.Value
+	for _, ref := range *al.Referrers() {
+		ia, ok := ref.(*ssa.IndexAddr)
+		if !ok {
+			continue
+		}
+		for _, r2 := range *ia.Referrers() {
+			if st, ok := r2.(*ssa.Store); ok && st.Addr == ssa.Value(ia) {
+				out = append(out, st.Val)
+			}
+		}
+	}
+	return out
+}
+
+// isBuiltinCall reports a call of the named builtin.
+func isBuiltinCall(cc *ssa.CallCommon, name string) bool {
+	b, ok := cc.Value.(*ssa.Builtin)
+	return ok && b.Name() == name
+}
